@@ -36,25 +36,36 @@ func bytesToTerms(b []byte) []*Term {
 }
 
 func (c *Ctx) digest(name string, in []*Term, outLen int) []*Term {
+	args := append([]*Term{CI(int64(len(in)))}, in...)
 	if b, ok := allConcrete(in); ok {
+		var out []*Term
 		switch name {
 		case "keccak256":
 			h := sha3.NewLegacyKeccak256()
 			h.Write(b)
-			return bytesToTerms(h.Sum(nil))
+			out = bytesToTerms(h.Sum(nil))
 		case "keccak512":
 			h := sha3.NewLegacyKeccak512()
 			h.Write(b)
-			return bytesToTerms(h.Sum(nil))
+			out = bytesToTerms(h.Sum(nil))
 		case "blake3":
 			s := blake3.Sum256(b)
-			return bytesToTerms(s[:])
+			out = bytesToTerms(s[:])
 		case "sha256":
 			s := sha256.Sum256(b)
-			return bytesToTerms(s[:])
+			out = bytesToTerms(s[:])
+		}
+		if out != nil {
+			// remember the concrete point so that symbolic applications are related to it
+			// (functional consistency and collision freedom)
+			if c.concrete == nil && len(c.ufApps[name]) < 64 {
+				c.recordUF(name, args, out)
+			}
+			return out
 		}
 	}
-	args := append([]*Term{CI(int64(len(in)))}, in...)
+	// cryptographic digests are collision free (listed assumption)
+	c.injective[name] = true
 	return c.applyUF(name, args, outLen, 255)
 }
 
